@@ -2,7 +2,7 @@
 """Regenerates MANIFEST.json from the table below (kept in one place so the file is always schema-valid)."""
 import json, subprocess
 
-NOTE = ("Trusted base: the Go toolchain, the VerifDump/verifPoint hooks (read-only accessor + three call sites in lock()/unlock()), "
+NOTE = ("Each child process starts in one of three first-sight modes (cold / live alias values seen first / zero and typed-nil alias values seen first). Trusted base: the Go toolchain, the VerifDump/verifPoint hooks (read-only accessor + three call sites in lock()/unlock()), "
         "and the reference model written in /verif/harness/mon from the property statement. Verdict covers only the executions produced.")
 
 P = {
@@ -11,7 +11,7 @@ P = {
  "C02": dict(tech="runtime monitor: differential against an independent reference renderer written from the statement, over exhaustive flag products and random trees",
    text="Exploration: 10,240 exhaustive two-level flag/kind products plus 300k / 10M random trees with per-node presentation options, Unicode (incl. interior exotic white space), blank-run, empty, numeric and stringer leaves and valid/invalid Conditions; String() and fmt %s compared byte-for-byte with the reference rendering.", ref="2 C02"),
  "C03": dict(tech="runtime monitor: list model with capacity, checked after every op of exhaustive short and random sawtooth histories; raw slice length read through VerifDump",
-   text="Exploration: all histories of length <=3 / <=4 over 13 growth/shrink symbols for k in 1..3 plus 200k / 5M random sawtooth histories (k in 1..6, no/zero/negative capacity argument, a quarter under a permissive push policy); Len<=k, Cap/Avail/IsFull arithmetic, raw length and kept-earliest content compared with the model after every op.", ref="2 C03"),
+   text="Exploration: all histories of length <=3 / <=4 over 13 growth/shrink symbols for k in 1..3 plus 200k / 5M random sawtooth histories (k in 1..6, no/zero/negative capacity argument, a quarter under a permissive push policy); Len<=k, Cap/Avail/IsFull arithmetic, raw length and kept-earliest content compared with the model after every op; plus 6k / 150k concurrent cases (2-5 goroutines growing one mutex-enabled capacity stack, half through a yielding push policy, Len<=k watched continuously, arithmetic and content at the end).", ref="2 C03"),
  "C04": dict(tech="runtime monitor: round-trip oracle against the tree description (reference Unmarshal shape, node-by-node walk of the reconstruction, second Unmarshal, IsEqual)",
    text="Exploration: 250k / 10M random trees of all kinds with empty stacks, chains, label-like strings, nil leaves and Conditions holding primitives, Stacks or Conditions; four assertions per tree and per Marshal calling convention.", ref="2 C04"),
  "C05": dict(tech="runtime monitor: metamorphic oracle - independently rebuilt copies must compare equal, every single-point mutant must compare unequal, in both directions",
@@ -24,14 +24,14 @@ P = {
    text="Exploration, exhaustive over the stated finite catalogue: every int-taking Stack method x {MinInt..MaxInt boundary set} x lengths 0..4 / 0..7 x index options x capacity, every any-taking Stack/Condition method x 55 awkward values, each value in four element roles; no panic, failure+unchanged snapshot for non-addressing indices, configuration slot intact and all observers still usable afterwards.", ref="2 C08"),
  "C09": dict(tech="runtime monitor: reflection-enumerated methods invoked on read-only instances (and on other instances with the read-only one as argument or nested element), recursive VerifDump before/after diff, writable-twin measurement",
    text="Exploration: every exported method of *Stack/*Condition x argument variants x 24 / 96 richly configured random instances, 40k / 200k random call sequences, and 40k / 200k foreign-role cases (read-only instance as argument of, or nested inside, a writable receiver incl. structure-rewriting calls); nothing but the documented exceptions may differ in the raw record, Free must refuse, clearing the flag restores mutability.", ref="2 C09"),
- "C10": dict(tech="runtime monitor: deterministic interleaving explorer over the lock-point hook (cooperative scheduler, snapshot oracle for 'writes only under the lock'), porcupine linearizability checking of recorded histories, free-running stress under the Go race detector with address-classified reports",
-   text="Exploration: all interleavings (at lock-acquisition granularity) of all 2-worker x 1-op programs over 13 mutators x length 0..3 x LIFO/FIFO x 3 capacity modes, up to 200/400 interleavings of 1.5k / 60k sampled 2-3-worker programs, and 1.5k / 40k free-running 3-8-goroutine histories; every history checked by porcupine against the sequential list model; race reports classified by address class and reading function. The slice-header race of the unlocked prologue is a recorded known finding.", ref="2 C10",
+ "C10": dict(tech="runtime monitor: deterministic interleaving explorer over the lock-point hook (cooperative scheduler, snapshot oracle for 'writes only under the lock'), porcupine linearizability checking of recorded histories, free-running stress and conservation-checked hammer runs under the Go race detector with address-classified reports",
+   text="Exploration: all interleavings (at lock-acquisition granularity) of all 2-worker x 1-op programs over 13 mutators x length 0..3 x LIFO/FIFO x 3 capacity modes, up to 200/400 interleavings of 1.5k / 60k sampled 2-3-worker programs, 1.5k / 40k free-running 3-7-goroutine histories, every history checked by porcupine against the sequential list model; 480 / 12k hammer runs (Pop/Push-back cyclers against Replace/Swap on a stack that holds at least two values in every sequential order: every call must succeed, length and unique content conserved); race reports classified by address class, reading function and (for slot 0) writing function. The slice-header race of the unlocked prologue is a recorded known finding.", ref="2 C10",
    note="Trusted base: Go toolchain and race detector, porcupine v1.3.0, the verifPoint hook positions (immediately before Lock, after Lock, after Unlock), VerifDump, the cooperative scheduler and the sequential list model in the harness. Schedules are explored at lock-acquisition granularity only."),
  "C11": dict(tech="runtime monitor under the Go race detector: before/after VerifDump diff, answer stability and lock-freedom for every query; parallel readers with isolated-answer oracle; race-log parsing",
-   text="Exploration: 3k / 100k random trees with every judged query (reflection-enumerated, name-classified) issued twice around an answer-clobbering step with the lock-point hook watching for lock acquisitions, and 120 / 2k trees queried by 8-16 goroutines under -race; any race report, lock acquisition, answer deviation or snapshot difference is a violation.", ref="2 C11",
+   text="Exploration: 3k / 100k random trees (computed identifiers, pure policies) with every judged query - the listed ones, every Is/Can method and the plain getters, reflection-enumerated and name-classified - issued twice around an answer-clobbering step with the lock-point hook watching for lock acquisitions, and 120 / 2k trees queried by 8-16 goroutines under -race; any race report, lock acquisition, answer deviation or snapshot difference is a violation.", ref="2 C11",
    note="Trusted base: Go toolchain and race detector (no false positives on pure Go, misses races that do not occur in the run), VerifDump, verifPoint, the name-based classification of methods into mutators/queries (an unclassified method makes the run inconclusive)."),
  "C12": dict(tech="runtime monitor: differential between an all-native tree and the same description with random alias forms, across String/Unmarshal/IsEqual/Traverse/IsNesting/Len/no-nesting/Transfer/Defrag/Convert*",
-   text="Exploration: 60k / 3M description pairs with six alias forms (value/pointer; no String, delegating String, divergent String); every path of length <=3 traversed on both twins, every alias form found probed against no-nesting stacks and Conditions, Convert* checked for identity on convertible and (zero,false) on 18 non-convertible values.", ref="2 C12"),
+   text="Exploration: 60k / 3M description pairs with six alias forms (value/pointer; no String, delegating String, divergent String); every path of length <=3 traversed on both twins, every alias form found probed against no-nesting stacks and Conditions, Convert* checked for identity on convertible and (zero,false) on 18 non-convertible values; a third of the pairs carry per-node user closures and are compared against a native twin as baseline.", ref="2 C12"),
  "C13": dict(tech="runtime monitor: list model with the no-nesting bit over random push-batch/option-switch histories; Condition expression state machine",
    text="Exploration: 200k / 10M random histories of mixed push batches (native, alias, pointer-to-alias Stacks, Conditions, primitives, nil) interleaved with option switches, on all kinds and on Conditions; content identity, CanNest and IsNesting checked after every step.", ref="2 C13"),
  "C14": dict(tech="runtime monitor: recording closures with predicate-defined verdicts; call-log, content and Err identity oracle for push policies; closure-result vs never-configured-twin oracle for the other closures",
